@@ -30,9 +30,9 @@ RE_POP = re.compile(r"POP(?![_a-zA-Z0-9])")
 RE_POP_ALL = re.compile(r"POP_ALL(?![_a-zA-Z0-9])")
 RE_PUSH = re.compile(r"PUSH(?![_a-zA-Z0-9])")
 RE_PUSH_LITERAL = re.compile(r"PUSH_LITERAL(?![_a-zA-Z0-9])")
-RE_RANGE_OP = re.compile(r"..")
+RE_RANGE_OP = re.compile(r"\.\.")
 RE_RULE_DOC = re.compile(r"///")
-RE_TAG = re.compile(r"#[_a-zA-z][_a-zA-Z0-9]+(?=\s*=)")
+RE_TAG = re.compile(r"#[_a-zA-Z][_a-zA-Z0-9]*")
 RE_WHITESPACE = re.compile(r"[ \t\n\r]+")
 RE_CHAR = re.compile(
     r"'\\[\\\"\r\n\t\0']'|'\\x[0-9a-fA-F]{2}'|'\\u\{[0-9a-fA-F]{2,6}\}'|'.'"
@@ -220,10 +220,12 @@ class Scanner:
 
     def accept_term(self) -> None:
         if value := self.scan(RE_TAG):
-            # Assumes RE_TAG is using a lookahead assertion for "=".
             self.emit(TokenKind.TAG, value)
             self.skip_trivia()
-            self.emit(TokenKind.ASSIGN_OP, self.next())
+            if self.peek() == "=":
+                self.emit(TokenKind.ASSIGN_OP, self.next())
+            else:
+                self.error("expected the assignment operator")
             self.skip_trivia()
 
         # Any number of prefix operators, in any order.
@@ -313,9 +315,13 @@ class Scanner:
 
         if value := self.scan(RE_PEEK):
             self.emit(TokenKind.PEEK, value)
+            pos = self.pos
+            self.skip_trivia()
             if self.peek() == "[":
                 self.emit(TokenKind.LBRACKET, self.next())
             else:
+                # Just `PEEK`. Leave any trivia for the caller.
+                self.pos = self.start = pos
                 return True
 
             self.skip_trivia()
@@ -328,6 +334,8 @@ class Scanner:
                 self.emit(TokenKind.RANGE_OP, value)
             else:
                 self.error("expected a range operator")
+
+            self.skip_trivia()
 
             if value := self.scan(RE_INTEGER):
                 self.emit(TokenKind.INTEGER, value)
@@ -437,6 +445,7 @@ class Scanner:
         # Skip '^'.
         self.pos += 1
         self.start = self.pos
+        self.skip_trivia()
 
         if self.peek() != '"':
             self.error("expected a string literal")
